@@ -185,8 +185,9 @@ def run(ctx):
         nd += coef_replay(ctx, r, every=every)
     ctx.extra['designs_coefficient_extracted'] = nd
     # 'cvmany': default folds with 11-12 repetitions (two-digit fold numbers), all label types
-    modes = []
-    for lab in ('str', 'int', 'str', 'intneg'):     # (mixed-width strings: truncation would depend on the drawn labels)
-        modes += ['cv'] * 4 + [f'cvmany:{lab}']
-    n = record_and_validate(ctx, PID, modes, 2000 if thorough else 300)
+    n = record_and_validate(ctx, PID, ['cv'], 2000 if thorough else 280)
+    # default folds with 11-12 repetitions (two-digit fold numbers; 22-36 observations), per label type
+    # (mixed-width strings are left out: truncation would depend on the drawn labels)
+    n += record_and_validate(ctx, PID, ['cvmany:str', 'cvmany:int', 'cvmany:str', 'cvmany:intneg'],
+                             60 if thorough else 20, name='trace_many')
     ctx.extra['recorded_executions_validated'] = n
